@@ -534,8 +534,8 @@ class C16(Prop):
             return None
         if op == "tp":
             table = {v: c for c, v in enumerate(self._name_table(case)) if v is not None}
-            ff, tt = mo["tp"]
-            ff = (ff[0], [tuple(x) for x in ff[1]])
+            ff0, ff1, tt = mo["tp"]        # Coq prints ((a, b), (c, d)) as (a, b, (c, d))
+            ff = (ff0, [tuple(x) for x in ff1])
             tt = (tt[0], [tuple(x) for x in tt[1]])
             ev = ob["events"]
             if len(ev) != 1:
